@@ -26,6 +26,8 @@ use std::collections::{BTreeMap, BTreeSet, HashMap};
 use std::panic::AssertUnwindSafe;
 use std::sync::atomic::{AtomicUsize, Ordering};
 
+pub mod rt;
+
 // ───────────────────────────── case structure ─────────────────────────────
 
 #[derive(Clone, Copy, PartialEq, Eq, Hash, Debug)]
